@@ -189,6 +189,37 @@ def rule_order(ctx):
     a = d.methods['add']
     ctx.ob('C18.order', f'{a.fq}:append', 'self.active[key].append(func)' in full(a.node) and 'self.active[key] = [func]' in full(a.node),
            'responders of a path are kept in a list in registration order', a.node, d.module)
+    # census of position-changing operations on the per-path lists: registration appends (add), unregistration removes
+    # (remove), a function replacement overwrites the slot in place; nothing else moves a registered responder
+    POS = {'append': 'add', 'insert': None, 'extend': None, 'remove': 'remove', 'pop': None, 'sort': None, 'reverse': None, 'clear': None}
+    sites = 0
+    for ci in [d] + ctx.repo.subclasses(d, strict=True):
+        for mname, f in ci.methods.items():
+            for c in U.calls(f.node):
+                if isinstance(c.func, ast.Attribute) and c.func.attr in POS and isinstance(c.func.value, ast.Subscript) \
+                        and U.is_self_attr(c.func.value.value, 'active'):
+                    sites += 1
+                    allowed = POS[c.func.attr]
+                    ctx.ob('C18.order', f'{f.fq}:{norm(c)}', allowed == mname,
+                           f'{norm(c)} in {ci.name}.{mname} changes the position of an already registered responder '
+                           f'(only add() may append and only remove() may remove; a replacement must keep its slot)', c, ci.module)
+            for n in walk_local(f.node):
+                if isinstance(n, ast.Assign) and isinstance(n.value, (ast.Call, ast.BinOp, ast.ListComp)) and len(n.targets) == 1 \
+                        and isinstance(n.targets[0], ast.Subscript) and U.is_self_attr(n.targets[0].value, 'active') \
+                        and ('sorted(' in norm(n.value) or 'reversed(' in norm(n.value) or isinstance(n.value, ast.BinOp)):
+                    sites += 1
+                    ctx.ob('C18.order', f'{f.fq}:{norm(n)}', False, f'{norm(n)} rebuilds a per-path responder list in another order', n, ci.module)
+    ctx.require(sites >= 2, 'C18.order', f'only {sites} position-changing sites on self.active[...] found')
+    u = d.methods['update_func_for_func_proxy']
+    src = full(u.node)
+    loops = [x for x in walk_local(u.node) if isinstance(x, ast.For)]
+    ok = False
+    if len(loops) == 1 and isinstance(loops[0].target, ast.Name):
+        k = loops[0].target.id
+        body = [norm(x) for x in loops[0].body]
+        ok = len(body) == 2 and body[0].endswith(f' = self.active[{k}].index(old_func)') and \
+            body[1] == f'self.active[{k}][{body[0].split(" = ")[0]}] = func'
+    ctx.ob('C18.order', f'{u.fq}:in-place', ok, 'replacing a responder function overwrites the old wrapper at its index on every path key', u.node, d.module)
     mi = ctx.repo.try_cls('sc3.base._midiinterface:MidiRtInterface')
     if mi is not None:
         src = full(mi.methods['__init__'].node)
@@ -307,6 +338,8 @@ def run(ctx):
 
 
 MUTANTS = [
+    dict(rule='C18.order', name='function replacement moves the responder to the end (seed C18-b)', file='sc3/base/responders.py',
+         old="            i = self.active[key].index(old_func)\n            self.active[key][i] = func", new="            self.active[key].remove(old_func)\n            self.active[key].append(func)"),
     dict(rule='C18.anchor', name='(fix reverted) re.match', file='sc3/base/_oscmatch.py',
          old="return re.fullmatch(pattern, address) is not None", new="return re.match(pattern, address) is not None"),
     dict(rule='C18.anchor', name="'+' not escaped", file='sc3/base/_oscmatch.py', old="    '+': '\\+',\n", new=""),
